@@ -24,8 +24,22 @@ done
 echo '}}' >> "$T/ov.json"
 if ! (cd "$T/src" && patch -p1 -s < "$PATCH"); then echo "MUTANT: patch does not apply"; exit 3; fi
 if ! go build -overlay "$T/ov.json" -o "$T/verif" ./cmd/verif 2> "$T/build.log"; then echo "MUTANT: does not build"; tail -5 "$T/build.log"; exit 3; fi
+if [ "$ID" = C20 ]; then
+  # scheduler exploration on (mutant + vsync overlay), then the free-running -race pass on the mutant
+  if ! OUT="$T/ov20" SRC_OVERRIDE="$T/src" scripts/gen_overlay.sh || ! go build -overlay "$T/ov20/ov.json" -o "$T/verif20" ./cmd/verif 2> "$T/build.log"; then echo "MUTANT: C20 overlay does not build"; tail -5 "$T/build.log"; exit 3; fi
+  VERIF_ROOT="$T/root" "$T/verif20" check C20 "$TIER" > "$T/out.txt" 2>&1
+  rc=$?
+  if [ $rc = 0 ]; then
+    go build -race -overlay "$T/ov.json" -o "$T/c20race" ./cmd/c20race 2>> "$T/build.log" || { echo "MUTANT: race build failed"; exit 3; }
+    if ! GORACE="halt_on_error=1 exitcode=66" "$T/c20race" 60 "$T/root/evidence/C20.json" > "$T/race.txt" 2>&1; then
+      grep -m1 -A12 "DATA RACE" "$T/race.txt" | head -14; tail -2 "$T/race.txt"
+      echo "VIOLATION (free-running -race pass)" >> "$T/out.txt"; rc=1
+    fi
+  fi
+else
 VERIF_ROOT="$T/root" "$T/verif" check "$ID" "$TIER" > "$T/out.txt" 2>&1
 rc=$?
+fi
 grep -m3 -A2 '^VIOLATION' "$T/out.txt"
 tail -1 "$T/out.txt"
 if [ $rc = 1 ]; then echo "MUTANT $(basename "$PATCH") on $ID: CAUGHT"; exit 0; fi
